@@ -75,6 +75,8 @@ def obligations(tier, ctx):
         obs.append(Ob(name="helper_" + nme, params=[("g0", "int"), ("g1", "int"), ("T", "int")],
                       pre=["0 <= g0 <= 100", "0 <= g1 <= 100", "1 <= T <= 150"],
                       call=f"H.helper({nme!r}, [g0, g1], T, -32603)", backend="P", timeout=180, family="helper"))
+    from symcheck.runner import mirror
+    obs += mirror(obs, r"^(sched_0|sched_2|sched_20|sched_31|cb_2|cb_50|autoid_0)$", "F", limit=(3 if tier == "quick" else None))
     return obs
 
 
